@@ -18,13 +18,15 @@ replace the population, record — is instantiated by a `Step` per loop and per 
 `toolbox.select` is a decision on the tape: the POSITIONS of the chosen individuals in the list the selector
 was given (any selector that returns k members of its input is such a position list); the machine rejects a
 selection of the wrong length or with a position outside the list.  `toolbox.evaluate` is a pure parameter
-`ev : genome → fitness`.  HARM's acceptance arithmetic (floats) is NOT modelled: every `acceptfunc` call is a
-Boolean on the tape.
+`ev : genome → fitness`.  HARM-GP's `_genpop` is generic in how `acceptfunc` is decided: `harmStep` reads each
+result off the tape (control flow only), `harmStepR` computes it from the recorded `random()` draw with the
+histogram / cutoff / target-distribution arithmetic of gp.py 1084-1122 (polymorphic in `RealLike`).
 
 Ghost state: `log` (gen, nevals) records, `shown` (what `halloffame.update` received), `evals` (gen, oid) —
 the calls of `toolbox.evaluate`.
 -/
 import DeapModel.Core.Variation
+import DeapModel.Core.Scalar
 
 namespace Loops
 open Variation
@@ -35,6 +37,8 @@ structure LState where
   pop : List Nat
   log : List (Nat × Nat) := []
   shown : List Nat := []
+  /-- the same feed with the content (genome, fitness) each individual had when it was shown -/
+  shownObj : List (Nat × Obj) := []
   evals : List (Nat × Nat) := []
 
 /-- `[ind for ind in l if not ind.fitness.valid]` -/
@@ -51,7 +55,9 @@ def assignFits (ev : List Int → List Int) : Heap → List Nat → Heap
 def evalPhase (ev : List Int → List Int) (all : Bool) (g : Nat) (s : LState) (l : List Nat) : LState × Nat :=
   let inv := if all then l else invalidOf s.st.heap l
   ({ s with st := { s.st with heap := assignFits ev s.st.heap inv },
-            shown := s.shown ++ l, evals := s.evals ++ inv.map (fun o => (g, o)) }, inv.length)
+            shown := s.shown ++ l,
+            shownObj := s.shownObj ++ l.map (fun o => (o, assignFits ev s.st.heap inv o)),
+            evals := s.evals ++ inv.map (fun o => (g, o)) }, inv.length)
 
 /-- Generation 0 of the four population-based loops: evaluate the invalid individuals of the initial
 population, show the population to the hall of fame, record `gen=0`. -/
@@ -106,6 +112,10 @@ def pickAll (l : List Nat) : List Nat → Option (List Nat)
 /-- weighted fitness values as Python compares them (`wvalues`; `()` when invalid) -/
 def fitKey (h : Heap) (o : Nat) : List Int := (h o).fit.getD []
 
+/-- `a.wvalues <= b.wvalues` as Python compares tuples (core's lexicographic order on lists; named here so
+that theorem files importing Mathlib refer to the same order as the model) -/
+def keyLe (a b : List Int) : Prop := a ≤ b
+
 /-- `tools.selBest`: `sorted(individuals, key=attrgetter("fitness"), reverse=True)[:k]` — stable, descending
 in the lexicographic order of the weighted values. -/
 def selBest (h : Heap) (l : List Nat) (k : Nat) : List Nat :=
@@ -153,40 +163,41 @@ def commaAssert (mu lam : Nat) : Bool := decide (mu ≤ lam)
 
 /-! ### gp.harm -/
 
-/-- One turn of the `while len(producedpop) < n` loop of `_genpop` (gp.py 1019-1055). -/
-inductive HStep where
-  | pick (acc : Bool)                    -- pickfrom.pop(); acceptfunc(len(aspirant))
-  | cx (i j : Nat) (acc1 acc2 : Bool)    -- opRandom < cxpb; toolbox.select(population, 2) → positions i, j
-  | mutn (i : Nat) (acc : Bool)          -- opRandom - cxpb < mutpb; toolbox.select(population, 1) → position i
-  | rep (i : Nat) (acc : Bool)           -- neither: the clone itself is the aspirant
-deriving Repr
+/-- One turn of the `while len(producedpop) < n` loop of `_genpop` (gp.py 1019-1055).  `δ` is what is
+recorded for an `acceptfunc` call: its Boolean result (`δ = Bool`, control flow only) or the `random()`
+draw it compared (`δ` = the scalar type, acceptance arithmetic modelled). -/
+inductive HStep (δ : Type) where
+  | pick (acc : δ)                       -- pickfrom.pop(); acceptfunc(len(aspirant))
+  | cx (i j : Nat) (acc1 acc2 : δ)       -- opRandom < cxpb; toolbox.select(population, 2) → positions i, j
+  | mutn (i : Nat) (acc : δ)             -- opRandom - cxpb < mutpb; toolbox.select(population, 1) → position i
+  | rep (i : Nat) (acc : δ)              -- neither: the clone itself is the aspirant
 
-/-- the `acceptfunc` results of a turn, one per aspirant -/
-def HStep.accs : HStep → List Bool
+/-- what is recorded for the `acceptfunc` calls of a turn, one per aspirant -/
+def HStep.accs {δ : Type} : HStep δ → List δ
   | .cx _ _ a1 a2 => [a1, a2]
   | .mutn _ a => [a]
   | .rep _ a => [a]
   | .pick a => [a]
 
 /-- The aspirants generated by one non-`pick` turn (lines 1033-1054), before acceptance. -/
-def harmGen {σ : Type} (ops : Ops σ) (pop : List Nat) (t : σ) (s : St) : HStep → Option (σ × St × List Nat)
+def harmGen {σ δ : Type} (ops : Ops σ) (pop : List Nat) (t : σ) (s : St) : HStep δ → Option (σ × St × List Nat)
   | .pick _ => none
   | .cx i j _ _ =>
     match pop[i]?, pop[j]? with
     | some p, some q =>
       let c1 := clone s p                                 -- map(toolbox.clone, toolbox.select(population, 2))
       let c2 := clone c1.1 q
-      let r := ops.mate t c2.1.heap c1.2 c2.2
+      let r := ops.mate t c2.1.heap c2.1.next c1.2 c2.2
       -- del aspirant1.fitness.values, aspirant2.fitness.values
-      some (r.tape, { c2.1 with heap := delFit (delFit r.heap r.fst) r.snd,
-                                log := c2.1.log ++ [Ev.mate c1.2 c2.2] }, [r.fst, r.snd])
+      some (r.tape, { heap := delFit (delFit r.heap r.fst) r.snd, next := r.next,
+                      log := c2.1.log ++ [Ev.mate c1.2 c2.2] }, [r.fst, r.snd])
     | _, _ => none
   | .mutn i _ =>
     match pop[i]? with
     | some p =>
       let c := clone s p
-      let r := ops.mutate t c.1.heap c.2                  -- aspirant = toolbox.mutate(aspirant)[0]
-      some (r.tape, { c.1 with heap := delFit r.heap r.ret, log := c.1.log ++ [Ev.mutate c.2] }, [r.ret])
+      let r := ops.mutate t c.1.heap c.1.next c.2         -- aspirant = toolbox.mutate(aspirant)[0]
+      some (r.tape, { heap := delFit r.heap r.ret, next := r.next, log := c.1.log ++ [Ev.mutate c.2] }, [r.ret])
     | none => none
   | .rep i _ =>
     match pop[i]? with
@@ -194,46 +205,149 @@ def harmGen {σ : Type} (ops : Ops σ) (pop : List Nat) (t : σ) (s : St) : HSte
     | none => none
 
 /-- The aspirants of one turn, each in turn: `if [len(producedpop) < n and] acceptfunc(len(aspirant)):
-producedpop.append(aspirant)` (the length test is vacuous for the first aspirant of a turn). -/
-def acceptInto (n : Nat) (always : Bool) : List Nat → List Nat → List Bool → List Nat
+producedpop.append(aspirant)` (the length test is vacuous for the first aspirant of a turn).  The third
+list holds the results of `acceptfunc` for the aspirants. -/
+def acceptInto (n : Nat) : List Nat → List Nat → List Bool → List Nat
   | produced, a :: as, c :: cs =>
-    acceptInto n always (if produced.length < n && (always || c) then produced ++ [a] else produced) as cs
+    acceptInto n (if produced.length < n && c then produced ++ [a] else produced) as cs
   | produced, _, _ => produced
 
-/-- `_genpop(n, pickfrom, acceptfunc)`; `always = true` is the default `acceptfunc = lambda s: True` (no
-decision is consulted).  `produced` is built in order; `pickfrom.pop()` takes the LAST element.  The turn
-list must be used up exactly when `n` individuals have been produced. -/
-def genpop {σ : Type} (ops : Ops σ) (pop : List Nat) (n : Nat) (always : Bool) :
-    List HStep → σ → St → (pickfrom produced : List Nat) → Option (σ × St × List Nat × List Nat)
+/-- `_genpop(n, pickfrom, acceptfunc)`.  `accept st o d` is `acceptfunc(len(o))` evaluated in state `st` with
+recorded datum `d` (`fun _ _ _ => true` is the default `acceptfunc = lambda s: True`).  `produced` is
+built in order; `pickfrom.pop()` takes the LAST element.  The turn list must be used up exactly when `n`
+individuals have been produced. -/
+def genpop {σ δ : Type} (ops : Ops σ) (pop : List Nat) (n : Nat) (accept : St → Nat → δ → Bool) :
+    List (HStep δ) → σ → St → (pickfrom produced : List Nat) → Option (σ × St × List Nat × List Nat)
   | [], t, s, pickfrom, produced => if produced.length = n then some (t, s, pickfrom, produced) else none
   | stp :: rest, t, s, pickfrom, produced =>
     if produced.length < n then
       match stp, pickfrom.getLast? with
       | .pick acc, some a =>                                            -- lines 1024-1031
-        genpop ops pop n always rest t s pickfrom.dropLast (if always || acc then produced ++ [a] else produced)
+        genpop ops pop n accept rest t s pickfrom.dropLast (if accept s a acc then produced ++ [a] else produced)
       | .pick _, none => none
       | _, some _ => none                                               -- pickfrom not empty: must pick
       | g, none =>
         match harmGen ops pop t s g with
         | none => none
         | some (t1, s1, asp) =>
-          genpop ops pop n always rest t1 s1 [] (acceptInto n always produced asp g.accs)
+          genpop ops pop n accept rest t1 s1 []
+            (acceptInto n produced asp (List.zipWith (fun a d => accept s1 a d) asp g.accs))
     else none
 
-structure HarmDec where
-  natural : List HStep     -- turns of `_genpop(nbrindsmodel, producesizes=True)`
-  accepted : List HStep    -- turns of `_genpop(len(population), pickfrom=naturalpop, acceptfunc=acceptfunc)`
+structure HarmDec (δ : Type) where
+  natural : List (HStep δ)     -- turns of `_genpop(nbrindsmodel, producesizes=True)`
+  accepted : List (HStep δ)    -- turns of `_genpop(len(population), pickfrom=naturalpop, acceptfunc=acceptfunc)`
 
-def harmStep {σ : Type} (ops : Ops σ) (nbr : Nat) (d : HarmDec) : Step σ where
+/-- One HARM generation's offspring, for any way `mkAccept` of building the acceptance function of the second
+`_genpop` from the state after the first one (the natural population and its sizes/fitnesses): -/
+def harmStepG {σ δ : Type} (ops : Ops σ) (nbr : Nat)
+    (mkAccept : St → (pop natural : List Nat) → Option (St → Nat → δ → Bool)) (d : HarmDec δ) : Step σ where
   produce := fun t st pop =>
-    match genpop ops pop nbr true d.natural t st [] [] with              -- line 1082
+    match genpop ops pop nbr (fun _ _ _ => true) d.natural t st [] [] with     -- line 1082
     | none => none
     | some (t1, s1, _, naturalpop) =>
-      -- lines 1084-1128 (histogram, cutoff, target distribution): floats, not modelled
-      match genpop ops pop pop.length false d.accepted t1 s1 naturalpop [] with   -- line 1132
+      match mkAccept s1 pop naturalpop with                                 -- lines 1084-1128
       | none => none
-      | some (t2, s2, _, offspring) => some ⟨t2, s2, offspring⟩
+      | some accept =>
+        match genpop ops pop pop.length accept d.accepted t1 s1 naturalpop [] with   -- line 1132
+        | none => none
+        | some (t2, s2, _, offspring) => some ⟨t2, s2, offspring⟩
   replace := fun _ _ off => some off                                     -- line 1145
+
+/-- control flow only: every `acceptfunc` result is read off the tape -/
+def harmStep {σ : Type} (ops : Ops σ) (nbr : Nat) (d : HarmDec Bool) : Step σ :=
+  harmStepG ops nbr (fun _ _ _ => some (fun _ _ b => b)) d
+
+/-! #### HARM-GP acceptance arithmetic (gp.py 1084-1128), polymorphic in the scalar -/
+
+section HarmArith
+variable {α : Type} [RealLike α]
+
+structure HarmParams (α : Type) where
+  alpha : α
+  beta : α
+  gamma : α
+  mincutoff : Nat
+  /-- `int(len(population) * rho - 1)` as computed by Python (a slice start: may be negative) -/
+  cutidx : Int
+
+/-- line 1058: `x * float(alpha) + beta` -/
+def halflife (p : HarmParams α) (x : Nat) : α := RealLike.ofNat x * p.alpha + p.beta
+
+/-- `hist[i] += v` -/
+def bump (h : List α) (i : Nat) (v : α) : List α := h.mapIdx (fun j x => if j = i then x + v else x)
+
+/-- lines 1086-1094, one individual of size `s ≥ 1` (kernel density estimation) -/
+def bumpSize (h : List α) (s : Nat) : List α :=
+  let h1 := bump h s (RealLike.ofRatio 2 5)                 -- naturalhist[indsize] += 0.4
+  let h2 := bump h1 (s - 1) (RealLike.ofRatio 1 5)          -- naturalhist[indsize - 1] += 0.2
+  let h3 := bump h2 (s + 1) (RealLike.ofRatio 1 5)          -- naturalhist[indsize + 1] += 0.2
+  let h4 := bump h3 (s + 2) (RealLike.ofRatio 1 10)         -- naturalhist[indsize + 2] += 0.1
+  if 2 ≤ s then bump h4 (s - 2) (RealLike.ofRatio 1 10) else h4    -- if indsize - 2 >= 0: … += 0.1
+
+/-- lines 1084-1097: the normalised natural histogram; `none` where the code cannot be meant to run
+(an empty natural population makes `max()` raise; a size 0 would index `[-1]`). -/
+def naturalHist (sizes : List Nat) (npop nbr : Nat) : Option (List α) :=
+  match sizes.max? with
+  | none => none
+  | some m =>
+    if sizes.all (fun s => decide (1 ≤ s)) then
+      let raw := sizes.foldl bumpSize (List.replicate (m + 3) (RealLike.ofNat 0))
+      -- [val * len(population) / nbrindsmodel for val in naturalhist]
+      some (raw.map (fun v => v * RealLike.ofNat npop / RealLike.ofNat nbr))
+    else none
+
+/-- Python slice start for `l[i:]` -/
+def sliceStart (len : Nat) (i : Int) : Nat :=
+  if i < 0 then (Int.toNat (len + i)) else min i.toNat len
+
+/-- lines 1100-1104: `max(mincutoff, len(min(sorted(naturalpop, key=fitness)[cutidx:], key=len)))`; the
+argument lists the natural population as (weighted fitness values or `[]`, size). -/
+def cutoffSize (p : HarmParams α) (inds : List (List Int × Nat)) : Option Nat :=
+  let sorted := inds.mergeSort (fun a b => !decide (b.1 < a.1))       -- sorted(): stable, ascending on `<`
+  match ((sorted.drop (sliceStart sorted.length p.cutidx)).map (·.2)).min? with
+  | none => none                                                      -- min() of an empty sequence raises
+  | some m => some (max p.mincutoff m)
+
+/-- lines 1107-1110: `(gamma * len(population) * math.log(2) / halflifefunc(x)) *
+math.exp(-math.log(2) * (x - cutoffsize) / halflifefunc(x))` -/
+def targetFunc (p : HarmParams α) (npop cutoff : Nat) (x : Nat) : α :=
+  (p.gamma * RealLike.ofNat npop * RealLike.log (RealLike.ofNat 2) / halflife p x) *
+    RealLike.exp (-(RealLike.log (RealLike.ofNat 2)) * RealLike.ofRatio ((x : Int) - (cutoff : Int)) 1 / halflife p x)
+
+/-- lines 1112-1116: `targethist` and `probhist` -/
+def probHist (p : HarmParams α) (npop cutoff : Nat) (nat : List α) : List α :=
+  nat.mapIdx (fun b n =>
+    let t := if b ≤ cutoff then n else targetFunc p npop cutoff b
+    if RealLike.ofNat 0 < n then t / n else t)                          -- t / n if n > 0 else t
+
+/-- lines 1118-1119: `probhist[s] if s < len(probhist) else targetfunc(s)` -/
+def probFunc (p : HarmParams α) (npop cutoff : Nat) (ph : List α) (s : Nat) : α :=
+  match ph[s]? with
+  | some v => v
+  | none => targetFunc p npop cutoff s
+
+/-- The acceptance threshold function of one generation, from the natural population (weighted fitness,
+size) — `none` where the code raises. -/
+def acceptThreshold (p : HarmParams α) (npop nbr : Nat) (inds : List (List Int × Nat)) : Option (Nat → α) :=
+  match naturalHist (inds.map (·.2)) npop nbr, cutoffSize p inds with
+  | some nat, some cutoff => some (probFunc p npop cutoff (probHist p npop cutoff nat))
+  | _, _ => none
+
+/-- lines 1121-1122: `acceptfunc(s) = random.random() <= probfunc(s)`; the aspirant's size is its genome
+length, the recorded datum is the `random()` result. -/
+def mkAcceptR (p : HarmParams α) (nbr : Nat) (s1 : St) (pop natural : List Nat) :
+    Option (St → Nat → α → Bool) :=
+  let inds := natural.map (fun o => ((s1.heap o).fit.getD [], (s1.heap o).genome.length))
+  match acceptThreshold p pop.length nbr inds with
+  | none => none
+  | some thr => some (fun st o r => decide (r ≤ thr (st.heap o).genome.length))
+
+/-- gp.harm's generation with the acceptance arithmetic modelled: the tape holds the `random()` draws. -/
+def harmStepR {σ : Type} (ops : Ops σ) (nbr : Nat) (p : HarmParams α) (d : HarmDec α) : Step σ :=
+  harmStepG ops nbr (mkAcceptR p nbr) d
+
+end HarmArith
 
 /-! ### eaGenerateUpdate -/
 
@@ -276,9 +390,14 @@ def eaMuPlusLambdaBest {σ : Type} (ops : Ops σ) (ev : List Int → List Int) (
     (decs : List (List Choice)) (t : σ) (s : LState) :=
   runPop ev (decs.map (plusBestStep ops mu lam)) t s
 
-def harm {σ : Type} (ops : Ops σ) (ev : List Int → List Int) (nbr : Nat) (decs : List HarmDec) (t : σ)
+def harm {σ : Type} (ops : Ops σ) (ev : List Int → List Int) (nbr : Nat) (decs : List (HarmDec Bool)) (t : σ)
     (s : LState) :=
   runPop ev (decs.map (harmStep ops nbr)) t s
+
+/-- gp.harm with the acceptance test computed by the model from the recorded draws -/
+def harmR {σ α : Type} [RealLike α] (ops : Ops σ) (ev : List Int → List Int) (nbr : Nat)
+    (ps : List (HarmParams α × HarmDec α)) (t : σ) (s : LState) :=
+  runPop ev (ps.map (fun pd => harmStepR ops nbr pd.1 pd.2)) t s
 
 /-- `gens`: per generation the individuals `toolbox.generate()` returns and the order `toolbox.update` leaves
 them in.  There is no caller population: the run starts from an empty one. -/
